@@ -674,7 +674,7 @@ func runC16(c *Ctx) {
 	})
 
 	c16entryPoints(c, sources[:min(len(sources), c.N(24, 146))])
-	c.Require("accepted", "requests_with_undefined_members", "option_passing_ways_compared", "replications", "cli:correct-accepted", "cli:correct-type-by-flag", "bulk:correct-accepted")
+	c.Require("accepted", "requests_with_undefined_members", "option_passing_ways_compared", "replications", "cli:correct-accepted", "cli:correct-type-by-flag", "replicate_entry_points_compared", "bulk:correct-accepted")
 }
 
 func checkReplica(src, res *jmut.Node, d0, d1 string, recalc bool) (field, detail string) {
@@ -858,6 +858,20 @@ func c16entryPoints(c *Ctx, sources []c16source) {
 		} else if len(s.stamps) == 0 {
 			c.R.Count("cli:replicate-refused", 1)
 		}
+		// every entry point answers a replication like the library does
+		libReplicates := false
+		Safely(func() {
+			if e0, perr := gx.ParseEnvelope(s.env); perr == nil {
+				if rep, rerr := e0.Replicate(); rerr == nil && rep != nil {
+					libReplicates = rep.Validate() == nil
+				}
+			}
+		})
+		c.R.Count("replicate_entry_points_compared", 1)
+		if (err == nil) != libReplicates {
+			c.R.Fail("entry-point:cli-replicate", fmt.Sprintf("`gobl replicate` on %s (%s) accepted=%v, the library's Replicate (result validated) accepted=%v: %s", s.it.Rel, s.variant, err == nil, libReplicates, trunc(se.String())), wit)
+		}
+		bulkReplicated := false
 		// bulk actions
 		var lines bytes.Buffer
 		l1, _ := json.Marshal(map[string]any{"action": "correct", "req_id": "c", "payload": map[string]any{"data": base64.StdEncoding.EncodeToString(s.env), "options": base64.StdEncoding.EncodeToString(ob)}})
@@ -890,11 +904,15 @@ func c16entryPoints(c *Ctx, sources []c16source) {
 					c.R.Fail("result:bulk-correct:"+f, fmt.Sprintf("bulk correct on %s (%s): %s", s.it.Rel, s.variant, det), wit)
 				}
 			case "r":
+				bulkReplicated = true
 				c.R.Count("bulk:replicate", 1)
 				if f, det := checkReplica(sn, rn, d0, d1, strings.HasPrefix(s.variant, "old-dated")); f != "" {
 					c.R.Fail("result:bulk-replicate:"+f, fmt.Sprintf("bulk replicate on %s: %s", s.it.Rel, det), wit)
 				}
 			}
+		}
+		if len(rs) > 0 && bulkReplicated != libReplicates {
+			c.R.Fail("entry-point:bulk-replicate", fmt.Sprintf("bulk replicate on %s (%s) accepted=%v, the library's Replicate (result validated) accepted=%v", s.it.Rel, s.variant, bulkReplicated, libReplicates), wit)
 		}
 	})
 }
